@@ -42,10 +42,10 @@ func c10Expect(w *gen.World, canon string, q c02Query) (hasOPT, hasECS bool, sco
 		var ip [16]byte
 		plen := int(q.ECSSrc)
 		if q.ECSFam == 1 {
-			copy(ip[:], net.IP(q.ECSIP).To16())
+			copy(ip[:], net.IP(q.ECSIP).Mask(net.CIDRMask(plen, 32)).To16())
 			plen += 96
 		} else {
-			copy(ip[:], q.ECSIP)
+			copy(ip[:], net.IP(q.ECSIP).Mask(net.CIDRMask(plen, 128)))
 		}
 		l, matchedLen, hasMap, matched := w.Maps.ECSLoc(canon, ip, plen)
 		switch {
@@ -95,7 +95,8 @@ func c10Check(w *gen.World, ix *model.Index, sv *harness.Server, canon string, q
 		return fmt.Sprintf("reply carries client-subnet option=%v, query carried one=%v (rcode %d)", c.HasECS, hasECS, c.Rcode), loc
 	}
 	if hasECS {
-		want := fmt.Sprintf("fam=%d src=%d addr=%s", q.ECSFam, q.ECSSrc, net.IP(q.ECSIP))
+		// (the DNS library zeroes the bits beyond the source length of every option it packs: the address is compared masked)
+		want := fmt.Sprintf("fam=%d src=%d addr=%s", q.ECSFam, q.ECSSrc, net.IP(q.ECSIP).Mask(net.CIDRMask(int(q.ECSSrc), 8*len(q.ECSIP))))
 		if c.ECS != want {
 			return fmt.Sprintf("client-subnet echoed as {%s}, sent {%s}", c.ECS, want), loc
 		}
@@ -161,6 +162,12 @@ func c10Queries(w *gen.World, rng *rand.Rand, n int) ([]c02Query, []string) {
 				q.ECSIP = ip.Mask(net.CIDRMask(int(q.ECSSrc), 128))
 			}
 		}
+		if q.HasECS && q.ECSSrc%8 != 0 && rng.Intn(5) == 0 {
+			// bits set beyond the source length inside the last transmitted octet (they survive the wire; the client's
+			// prefix is still the first ECSSrc bits)
+			q.ECSIP = append([]byte{}, q.ECSIP...)
+			q.ECSIP[q.ECSSrc/8] |= byte(1+rng.Intn(255)) & (0xff >> (q.ECSSrc % 8))
+		}
 		if q.EDNS {
 			q.Cookie = rng.Intn(4) == 0
 			q.DO = rng.Intn(4) == 0
@@ -199,6 +206,9 @@ func runC10(r *report.Run) {
 				_, _, scope, _ := c10Expect(w, canon[j], q)
 				if q.HasECS {
 					r.Count(fmt.Sprintf("prescribed_scope_%d", scope), 1)
+					if !net.IP(q.ECSIP).Equal(net.IP(q.ECSIP).Mask(net.CIDRMask(int(q.ECSSrc), 8*len(q.ECSIP)))) {
+						r.Count("client_subnets_with_bits_beyond_the_source_length", 1)
+					}
 					if hasMap {
 						r.Nontrivial(fmt.Sprintf("%d|%+v", seed, q))
 					}
